@@ -1,7 +1,7 @@
 (* C09 - dot product: sign carried by the angle.  Pinned theorems only. *)
 From Coq Require Import ZArith List Bool Reals Lra.
 From Flocq Require Import Core BinarySingleNaN.
-Require Import GV.FloatBase GV.FloatLemmas GV.AngleM GV.AngleProofs GV.GeonumM GV.GeonumProofs GV.TraitsM GV.NewProofs GV.CtorProofs GV.ClosureProofs GV.TraitsProofs GV.BoundProofs.
+Require Import GV.FloatBase GV.FloatLemmas GV.AngleM GV.AngleProofs GV.GeonumM GV.GeonumProofs GV.TraitsM GV.NewProofs GV.CtorProofs GV.ClosureProofs GV.TraitsProofs GV.BoundProofs GV.PiBounds GV.TrigProofs GV.DotValue.
 Open Scope R_scope.
 
 (* for EVERY libm: |value| at blade 0 (value >= 0) or blade 2 (value < 0), remainder exactly 0 *)
@@ -38,3 +38,35 @@ Theorem C09_bound : forall (L : libm) a b, cos_range L -> fin (fmul (mag a) (mag
   fin (dot_value L a b) /\ R_ (mag (dot L a b)) <= Rabs (R_ (fmul (mag a) (mag b))).
 Proof. exact dot_bound. Qed.
 Print Assumptions C09_bound.
+
+(* the cosine fed into the dot value is the cosine of the REAL direction difference (real pi), for any
+   libm accurate to u on [-8,8]: error at most u + 1.0001e-10 (1e-10 is the quarter-turn snap) *)
+Theorem C09_cos_value : forall (L : libm) (u : R) a b, cos_acc L u ->
+  canonp (rem a) -> canonp (rem b) -> (0 <= blade a)%Z -> (0 <= blade b)%Z ->
+  let c := cosF L (grade_angle (geometric_sub b a)) in
+  fin c /\ Rabs (R_ c - cos (dir b - dir a)) <= u + 10001 / 100000000000000.
+Proof. exact dot_cos_value. Qed.
+Print Assumptions C09_cos_value.
+
+(* the dot value is |a||b|cos(direction difference) within |a||b|(u + 1.0002e-10) + 2^-1073 *)
+Theorem C09_value : forall (L : libm) (u : R) a b, cos_acc L u -> u <= / 1000 ->
+  canonp (rem (ang a)) -> canonp (rem (ang b)) -> (0 <= blade (ang a))%Z -> (0 <= blade (ang b))%Z ->
+  fin (dot_value L a b) ->
+  Rabs (R_ (dot_value L a b) - R_ (mag a) * R_ (mag b) * cos (dir (ang b) - dir (ang a)))
+    <= Rabs (R_ (mag a) * R_ (mag b)) * (u + 10002 / 100000000000000) + bpow radix2 (-1073).
+Proof. exact dot_value_real. Qed.
+Print Assumptions C09_value.
+
+(* a pair reported orthogonal really has |a||b||cos| below the 1e-10 threshold plus that error *)
+Theorem C09_orthogonal_value : forall (L : libm) (u : R) a b, cos_acc L u -> u <= / 1000 ->
+  canonp (rem (ang a)) -> canonp (rem (ang b)) -> (0 <= blade (ang a))%Z -> (0 <= blade (ang b))%Z ->
+  fin (dot_value L a b) -> is_orthogonal L a b = true ->
+  Rabs (R_ (mag a) * R_ (mag b) * cos (dir (ang b) - dir (ang a)))
+    < R_ EPSILON + Rabs (R_ (mag a) * R_ (mag b)) * (u + 10002 / 100000000000000) + bpow radix2 (-1073).
+Proof. exact orthogonal_value. Qed.
+Print Assumptions C09_orthogonal_value.
+
+(* the accuracy hypotheses are satisfiable (u = 2^-52 by the correctly rounded real cos / sin) *)
+Theorem C09_value_hyps_inhabited : cos_acc ideal_libm (/ 4503599627370496) /\ sin_acc ideal_libm (/ 4503599627370496) /\ / 4503599627370496 <= / 1000.
+Proof. exact dot_hyps_inhabited. Qed.
+Print Assumptions C09_value_hyps_inhabited.
